@@ -131,6 +131,7 @@ def rematCfgOfJson (j : Json) : Except String RematCfg := do
 inductive Expr where
   | c (k : Nat) | x (k : Nat) | reg (r : String) | const (v : Int)
   | add (a b : Expr) | mul (a b : Expr) | sub (a b : Expr)
+  | bc (e : Expr) (extra : List Nat)   -- e[..., None, …] + arange(prod(extra)).reshape(extra): a higher-rank leaf
   deriving Repr
 
 inductive Stmt where
@@ -157,6 +158,7 @@ partial def exprOfJson (j : Json) : Except String Expr := do
   | "+" => .ok (.add (← exprOfJson (← argAt j 1)) (← exprOfJson (← argAt j 2)))
   | "*" => .ok (.mul (← exprOfJson (← argAt j 1)) (← exprOfJson (← argAt j 2)))
   | "-" => .ok (.sub (← exprOfJson (← argAt j 1)) (← exprOfJson (← argAt j 2)))
+  | "bc" => .ok (.bc (← exprOfJson (← argAt j 1)) (← asList asNat (← argAt j 2)))
   | _ => bad
 
 def stmtOfJson (j : Json) : Except String Stmt := do
@@ -181,6 +183,17 @@ def binop (f : Int → Int → Int) (a b : A) : Except Err A :=
     | _, _ => DVal.unk)
   if r.data.any (fun p => p.2 == DVal.key (.seed "!bad")) then .error (.body "TypeError") else .ok r
 
+/-- row-major position of a multi-index inside a block of the given dims -/
+def ravelIdx (idx dims : List Nat) : Nat :=
+  (idx.zip dims).foldl (fun acc p => acc * p.2 + p.1) 0
+
+def expandArr (a : A) (extra : List Nat) : Except Err A :=
+  let r := Arr.ofFn (a.shape ++ extra) (fun i => match a.getD (i.take a.shape.length) with
+    | .int u => DVal.int (u + (ravelIdx (i.drop a.shape.length) extra : Nat))
+    | .key _ => DVal.key (.seed "!bad")
+    | .unk => DVal.unk)
+  if r.data.any (fun p => p.2 == DVal.key (.seed "!bad")) then .error (.body "TypeError") else .ok r
+
 structure St where
   regs : List (String × A)
   vars : Vars DVal
@@ -193,6 +206,7 @@ def evalExpr (p : Prog) (st : St) (c xs : List A) : Expr → Except Err A
   | .add a b => do binop (· + ·) (← evalExpr p st c xs a) (← evalExpr p st c xs b)
   | .mul a b => do binop (· * ·) (← evalExpr p st c xs a) (← evalExpr p st c xs b)
   | .sub a b => do binop (· - ·) (← evalExpr p st c xs a) (← evalExpr p st c xs b)
+  | .bc e extra => do expandArr (← evalExpr p st c xs e) extra
 
 def execStmt (p : Prog) (mutF : LFilter) (rngs : Rngs) (c xs : List A) (st : St) : Stmt → Except Err St
   | .var reg col name init =>
